@@ -34,10 +34,10 @@ ASSUMPTIONS = [
 REQUIRED_COUNTERS = {
     "quick": {"forward_vs_reference_checked": 500, "matrix_entries_checked": 40000, "exactdata_checked": 180,
               "noise_affine_checked": 170, "posterior_logd_checked": 400, "components_identity_checked": 180,
-              "noise_stat_pooled_samples": 1500},
+              "noise_stat_pooled_samples": 1500, "psf_tie_cases_checked": 12, "psf_tie_cases_2d_checked": 4},
     "thorough": {"forward_vs_reference_checked": 4000, "matrix_entries_checked": 300000, "exactdata_checked": 1200,
                  "noise_affine_checked": 1200, "posterior_logd_checked": 2500, "components_identity_checked": 1200,
-                 "noise_stat_pooled_samples": 15000},
+                 "noise_stat_pooled_samples": 15000, "psf_tie_cases_checked": 90, "psf_tie_cases_2d_checked": 25},
 }
 BUDGET_S = {"quick": 240.0, "thorough": 1500.0}
 
@@ -78,16 +78,40 @@ def _phantom1(r, dim):
         param = round(r.uniform(3.0, min(10.0, dim / 1.6)), 3)
     return name, param
 
-def _d1_case(r, kind, bc):
+# boundary-value classes: defocus radii whose square is (in exact arithmetic) a sum of two integer squares, so that samples
+# sit exactly on the edge of the documented disc  dist^2 <= R^2 ; integer radii are exact ties in floating point too
+TIE_RADII = (1, 2, 3, 5, 1.0, 2.0, 4)                                        # exact ties (counted, floor in REQUIRED_COUNTERS)
+NEAR_TIE_RADII = (math.sqrt(2), math.sqrt(5), math.sqrt(8), math.sqrt(13), 2.5)  # ties only in exact arithmetic: float R**2 decides
+
+def _tie_size(r, R_, default_size):
+    c = int(math.ceil(R_))
+    return r.choice([2 * c + 1, 2 * c + 2, 2 * c + 3] + ([None] if default_size >= 2 * c + 2 else []))
+
+def _d1_case(r, kind, bc, tie=False):
     dim = r.randint(8, 40)
-    c = {"kind": "d1", "dim": dim, "psf": kind, "bc": bc, "bc_spelled": _spell(r, bc)}
+    c = {"kind": "d1", "dim": dim, "psf": kind, "bc": bc, "bc_spelled": _spell(r, bc), "tie": bool(tie)}
     if kind.startswith("custom"):
         c["psf_len"] = r.choice([r.randrange(3, dim, 2), r.randrange(2, dim, 2), dim, dim, dim + r.randint(1, 3), 1 if kind == "custom_sym" else 2])
     else:
         c["psf_size"] = r.choice([None, None, r.randrange(3, dim, 2), r.randrange(2, dim, 2), dim])
         c["psf_param"] = r.choice([None, round(r.uniform(1.0, 5.0) if kind == "defocus" else r.uniform(0.6, 6.0), 3), 0.05, 40.0])
         c["psf_spelled"] = _spell(r, kind)
+        if tie and kind == "defocus":
+            c["psf_param"] = r.choice(TIE_RADII)
+            c["psf_size"] = _tie_size(r, c["psf_param"], dim)
+        elif kind == "defocus" and r.random() < 0.3:
+            c["psf_param"] = r.choice(NEAR_TIE_RADII)
+        elif tie:           # size limits and integer-valued parameters
+            c["psf_size"] = r.choice([1, 2, 3, dim - 1, dim, dim + 1])
+            c["psf_param"] = r.choice([1, 2, 1.0, 3])
     c["phantom"], c["phantom_param"] = _phantom1(r, dim)
+    if tie and r.random() < 0.5:        # round(dim/param) lands exactly on .5 ; piecewise phantoms with nodes on their break points
+        k = r.randint(1, max(1, int(dim / 3 - 0.5)))
+        c["phantom"], c["phantom_param"] = r.choice([("square", dim / (k + 0.5)), ("hat", dim / (k + 0.5)), ("pc", None), ("skyscraper", None)])
+        if c["phantom"] in ("pc", "skyscraper") and not kind.startswith("custom"):
+            c["dim"] = dim = r.choice([11, 21, 31])
+            if c.get("psf_size") is not None and not (tie and kind == "defocus"):
+                c["psf_size"] = min(c["psf_size"], dim + 1)
     c["phantom_spelled"] = _spell(r, c["phantom"])
     c["noise"], c["noise_spelled"], c["noise_std"] = _noise(r)
     c["prior"] = r.choice([None, None, "gauss", "gauss", "laplace", "gmrf"])
@@ -95,11 +119,13 @@ def _d1_case(r, kind, bc):
     c["np_seed"] = r.randrange(2 ** 31)
     return c
 
-def _legacy_case(r, kind):
+def _legacy_case(r, kind, tie=False):
     dim = 2 * r.randint(4, 20)
-    c = {"kind": "d1leg", "dim": dim, "psf": kind, "bc": "periodic"}
+    c = {"kind": "d1leg", "dim": dim, "psf": kind, "bc": "periodic", "tie": bool(tie)}
     if not kind.startswith("custom"):
         c["psf_param"] = r.choice([None, round(r.uniform(2.0, 25.0), 3), 0.05, 200.0])
+        if tie:             # sinc: zeros of the PSF fall exactly on samples; integer-valued parameters otherwise
+            c["psf_param"] = r.choice([dim / 2, dim, 2 * dim, 2, 4]) if kind in ("sinc", "prolate") else r.choice([1, 2, 10, 1.0])
         c["psf_spelled"] = r.choice([kind, kind.capitalize(), "vonMises" if kind == "vonmises" else kind])
     c["phantom"], c["phantom_param"] = _phantom1(r, dim)
     c["phantom_spelled"] = _spell(r, c["phantom"])
@@ -109,9 +135,9 @@ def _legacy_case(r, kind):
     c["np_seed"] = r.randrange(2 ** 31)
     return c
 
-def _d2_case(r, kind, bc, tier):
+def _d2_case(r, kind, bc, tier, tie=False):
     dim = r.randint(4, 10) if tier == "quick" else r.randint(4, 16)
-    c = {"kind": "d2", "dim": dim, "psf": kind, "bc": bc, "bc_spelled": _spell(r, bc)}
+    c = {"kind": "d2", "dim": dim, "psf": kind, "bc": bc, "bc_spelled": _spell(r, bc), "tie": bool(tie)}
     size = r.choice([r.randrange(3, 10, 2), r.randrange(2, 9, 2), r.randint(2, 7), dim + 1 if r.random() < 0.3 else 3])
     if kind.startswith("custom"):
         c["psf_len"] = size
@@ -119,6 +145,15 @@ def _d2_case(r, kind, bc, tier):
         c["psf_size"] = r.choice([size, size, size, None])
         c["psf_param"] = r.choice([None, round(r.uniform(1.0, 3.5) if kind == "defocus" else r.uniform(0.6, 4.0), 3), 0.05, 30.0])
         c["psf_spelled"] = _spell(r, kind)
+        if tie and kind == "defocus":
+            c["psf_param"] = r.choice(TIE_RADII)
+            c["psf_size"] = _tie_size(r, c["psf_param"], 21)
+        elif kind == "defocus" and r.random() < 0.3:
+            c["psf_param"] = r.choice(NEAR_TIE_RADII)
+            c["psf_size"] = r.choice([7, 8, 9, None])
+        elif tie:
+            c["psf_size"] = r.choice([1, 2, 3, dim, dim + 1])
+            c["psf_param"] = r.choice([1, 2, 1.0, 3])
     c["phantom"] = r.choice(["nd_same", "nd_vec", "nd_other", "nd_neg", "nd_zero", r.choice(PHANTOMS_2D)])
     c["noise"], c["noise_spelled"], c["noise_std"] = _noise(r)
     c["prior"] = r.choice([None, "gauss", "gauss", "gmrf"])
@@ -184,19 +219,19 @@ def cases(tier, seed):
     r = core.rng_for(seed, PROPERTY, tier, "cases")
     q = tier == "quick"
     out = []
-    for _ in range(6 if q else 44):
+    for rnd in range(6 if q else 44):
         for kind in PSF_KINDS:
             for bc in BC1:
-                out.append(_d1_case(r, kind, bc))
-    for _ in range(6 if q else 40):
+                out.append(_d1_case(r, kind, bc, tie=rnd % 2 == 0))
+    for rnd in range(6 if q else 40):
         for kind in LEGACY_KINDS:
-            out.append(_legacy_case(r, kind))
+            out.append(_legacy_case(r, kind, tie=rnd % 2 == 0))
     for probe in ("odd_dim", "bc", "psf_size"):
         out.append({"kind": "d1leg_refusal", "probe": probe, "dim": 2 * r.randint(4, 20) + (1 if probe == "odd_dim" else 0)})
-    for _ in range(3 if q else 22):
+    for rnd in range(4 if q else 22):
         for kind in PSF_KINDS:
             for bc in BC2:
-                out.append(_d2_case(r, kind, bc, tier))
+                out.append(_d2_case(r, kind, bc, tier, tie=rnd % 2 == 0))
     for _ in range(8 if q else 60):
         for field in FIELDS:
             out.append(_pde_case(r, "heat", field))
@@ -642,6 +677,18 @@ def _run_d1(case, ctx, cuqi, rs):
     cands = [(None, (lambda x, A=A_doc: A @ _arr(x)))] + [(m, (lambda x, A=A: A @ _arr(x))) for m, A in alternates]
     opnorm = float(np.max(np.sum(np.abs(A_doc), axis=1)))
     F_eff = _compare_forward(ctx, cfg, tp.model.forward, cands, xs, opnorm=opnorm)
+    # boundary-value classes actually exercised: a PSF sample exactly on the edge of the defocus disc / a sinc zero on a sample
+    if not kind.startswith("custom"):
+        par = case.get("psf_param")
+        if kind == "defocus" and not legacy:
+            off = np.array([k - n // 2 for k in range(n)], dtype=float)
+            if np.any(off ** 2 == (10 if par is None else par) ** 2):
+                ctx.count("psf_tie_cases_checked"); ctx.note("psf_tie", [kind, n, par])
+        if legacy and kind in ("sinc", "prolate") and par is not None:
+            if any(float(par * d / dim).is_integer() for d in range(1, dim // 2 + 1)):
+                ctx.count("psf_tie_cases_checked"); ctx.note("psf_tie", [kind, dim, par])
+    if case.get("tie"):
+        ctx.count("boundary_value_cases")
     # the stored matrix, entry by entry
     kind_, M = core.outcome(lambda: tp.model.get_matrix())
     if kind_ == "value":
@@ -744,6 +791,14 @@ def _run_d2(case, ctx, cuqi, rs):
     cands = [(None, conv(P_doc))] + [(m, conv(Pm)) for m, Pm in alternates]
     opnorm = float(np.sum(np.abs(P_doc)))
     F_eff = _compare_forward(ctx, cfg, tp.model.forward, cands, xs, tol=1e-9, opnorm=opnorm)
+    if kind == "defocus":
+        off = np.array([k - size // 2 for k in range(size)], dtype=float)
+        on_edge = int(np.sum((off[:, None] ** 2 + off[None, :] ** 2) == param ** 2))
+        if on_edge:
+            ctx.count("psf_tie_cases_checked"); ctx.count("psf_tie_cases_2d_checked"); ctx.count("psf_tie_pixels_on_disc_edge", on_edge)
+            ctx.note("psf_tie", [kind, size, param, on_edge])
+    if case.get("tie"):
+        ctx.count("boundary_value_cases")
     # the PSF the problem reports is the one it applies
     Pm = (tp.Miscellaneous or {}).get("PSF") if hasattr(tp, "Miscellaneous") else None
     if F_eff is not None and Pm is not None:
